@@ -1,7 +1,8 @@
 #!/bin/bash
 # verify one seeded change in its own scratch worktree of /repo HEAD: demo fails with it, passes without, test suite stays green
+# usage: tools/verify_seed.sh <id> [<dir with patch.diff demo.py>]   (default dir /tmp/seed/out/<id>)
 id=$1
-src=/tmp/seed/out/$id
+src=${2:-/tmp/seed/out/$id}
 wt=/tmp/seedverify/$id
 mkdir -p /tmp/seedverify
 rm -rf $wt; git -C /repo worktree prune
@@ -10,10 +11,10 @@ cd $wt
 out=/tmp/seedverify/$id.result
 {
 echo "base=$(git rev-parse --short HEAD)"
-PYTHONPATH=$wt timeout 600 /venv/bin/python $src/demo.py > /tmp/seedverify/$id.clean.log 2>&1; echo "demo_clean_exit=$?"
+PYTHONPATH=$wt timeout 900 /venv/bin/python -W ignore $src/demo.py > /tmp/seedverify/$id.clean.log 2>&1; echo "demo_clean_exit=$?"
 if git apply --check $src/patch.diff 2>/dev/null; then
   git apply $src/patch.diff; echo "patch_applies=yes"
-  PYTHONPATH=$wt timeout 600 /venv/bin/python $src/demo.py > /tmp/seedverify/$id.seeded.log 2>&1; echo "demo_seeded_exit=$?"
+  PYTHONPATH=$wt timeout 900 /venv/bin/python -W ignore $src/demo.py > /tmp/seedverify/$id.seeded.log 2>&1; echo "demo_seeded_exit=$?"
   PYTHONPATH=$wt /venv/bin/python -m pytest -q -p no:cacheprovider --timeout=900 tests 2>&1 | tail -1
 else
   echo "patch_applies=no"
